@@ -146,6 +146,8 @@ var c01Nondet = []string{
 	"strftime('%Y-%m-%d %H:%M:%f','now')", "strftime('%s','now')", "strftime('%J','now')", "datetime('now','+1 day')",
 	"datetime('now','start of month','+3 hours')", "DATETIME('NOW')", "julianday()", "datetime()", "unixepoch()", "time()", "date()",
 	"timediff('now','2020-01-01 00:00:00')", "random ()", "strftime('%f')",
+	// literals SQLite reads as less than one: randomblob returns ONE random byte (pinned since fix 2d6515f)
+	"hex(randomblob(0xFFFFFFFFFFFFFFFF))", "randomblob(0x8000000000000000)", "hex(randomblob(-1))", "randomblob(0)", "hex(randomblob(0.5))", "randomblob(+3)",
 }
 
 func c01Expr(r *vfRng, nondetPct, depth int) string {
@@ -271,6 +273,10 @@ func c01Program(t *testing.T, rep *vfReport, r *vfRng, nReq int, nondetEndpoint 
 			stmts = append(stmts, fmt.Sprintf("INSERT INTO t(a,b,c) VALUES(%s, %s, %d)", r.Pick(c01Nondet), r.Pick(c01Nondet), i))
 			stmts = append(stmts, fmt.Sprintf("INSERT INTO t(a,b,c) VALUES(%s, (SELECT count(*) FROM t), %s)", r.Pick(c01Nondet), r.Pick([]string{"1", "(SELECT 2)"})))
 			stmts = append(stmts, fmt.Sprintf("UPDATE t SET c = %s WHERE id IN (SELECT id FROM t WHERE id %% 3 = %d)", r.Pick(c01Nondet), i))
+			if i == 1 { // every program: blob sizes SQLite reads as less than one (one random byte unless pinned)
+				stmts = append(stmts, fmt.Sprintf("INSERT INTO t(a,b,c) VALUES(hex(randomblob(%s)), randomblob(%s), %d)",
+					r.Pick([]string{"0xFFFFFFFFFFFFFFFF", "0x8000000000000000", "0xfffffffffffffff0"}), r.Pick([]string{"-1", "0", "0.5", "-0x10"}), i))
+			}
 		}
 		for j := 0; j < 1+r.Intn(3); j++ {
 			stmts = append(stmts, c01Stmt(r, pct))
